@@ -32,3 +32,7 @@ import TsVerif.C06.NodeProps
 #print axioms TsVerif.C06.raw_child_nested
 #print axioms TsVerif.C06.child_with_descendant_spec_partial
 #print axioms TsVerif.C06.parent_spec_partial
+#print axioms TsVerif.C06.ns_descend
+#print axioms TsVerif.C06.ns_levels
+#print axioms TsVerif.C06.next_sibling_spec_partial
+#print axioms TsVerif.C06.next_sibling_spec_from_root
